@@ -242,7 +242,43 @@ def run_packing(cfg, out):
             # the MTU is changed while the connection is open (documented: lower it when the network drops packets)
             if healed is not None and c05.change_mtu(run, c, r):
                 healed = run.settle([c], min_ticks=30, horizon=40.0)
+            # --- a backlog longer than half the 16-bit message ring: an application that queues tens of thousands of small unreliable
+            #     messages in one go (a replay dump, a map download in chunks); the link is clean - every one of them leaves
+            if healed is not None and run.open(c) and P.MTU >= 1200 and cfg.get("big_backlog", True) and (cfg["shard"] + cfg["seed"]) % 4 == 0:
+                w.net.heal(0.004)
+                side = r.choice(["client", "server"])
+                ep = c if side == "client" else run.sconn(c)
+                if ep is not None:
+                    for _ in range(33100):
+                        run.app.send(ep, side, r.choice([11, 11, 12, 14]), 0, with_cb=False)
+                    run.c.inc("backlogs_beyond_half_the_message_ring")
+                    healed = run.settle([c], min_ticks=30, horizon=60.0)
             T.final_checks(run, [c], healed, horizon=40.0)
+            # --- last act: the application closes the connection while resends are due that fill the next datagram to the last byte
+            #     (or to the last slot of its count field): whatever is built then still fits
+            if w.alive() and run.open(c):
+                side = r.choice(["client", "server"])
+                ep = c if side == "client" else run.sconn(c)
+                conn = c.udp.conn if side == "client" else ep
+                if ep is not None and not conn.outgoing_messages:
+                    w.net.set(c2s=L.Policy(outage=True), s2c=L.Policy(outage=True))
+                    if r.random() < 0.3:
+                        for _ in range(255):
+                            run.app.send(ep, side, 0, 1, with_cb=False)
+                    else:
+                        run.app.send(ep, side, max(11, P.MAX_PAYLOAD_SIZE - r.choice([0, 0, 1, 2, 3, 4, 5])), 1, with_cb=False)
+                    # (steered so that the close falls into the frame before the resend is due: both are in the next datagram's queue)
+                    interval = getattr(conn, "send_keep_alive_interval", 0.1)
+                    w.step(2)
+                    for _ in range(int(3 * interval / w.dt) + 8):
+                        pend = list(conn.pending_retry_msg.values())
+                        if pend and all(conn.clock() + 0.9 * w.dt - m.assembled_time >= interval for m in pend):
+                            run.c.inc("closes_steered_onto_due_resend")
+                            break
+                        w.step()
+                    (c.udp if side == "client" else ep).disconnect()
+                    w.step(12)
+                    run.c.inc("closes_with_datagram_filling_resend_due")
             if not w.alive():
                 run.report("C09", "server-loop-died", "the server thread died: %s" % (w.thread_errors[:2],))
             for t, err in w.send_errors[:3]:
